@@ -7,19 +7,19 @@ TECH_HIST = "deterministic simulation: seeded single-threaded history simulator 
 CHECKS = {
  'C01': ('exploration', "Seeded histories (fault-free and faulting batches) of every public constructor, clone, drop and mutator over a pool of handles; after each step every handle's text, length and the call's return value are compared with a std String model. Sampled, not enumerated: evidence that no history up to 40 (quick) / 120 (thorough) steps over 2-6 handles among those drawn separates LeanString from String.", '5 C01'),
  'C02': ('exploration', "Same simulator biased to sharing: before/after snapshots (bytes, length, pointer) of every handle that is not the target of a step, including steps that fail with ReserveError or panic; the shadow heap poisons freed and moves reallocated blocks so a write/realloc/free under another handle changes what it reads at once.", '5 C02'),
- 'C03': ('exploration', "Shadow heap as oracle at the allocator boundary (double free, free/realloc with a different size or alignment, unknown pointer, damaged guard zone or poison) plus, after every step, block liveness per handle, reference count = live handles per block, no orphan block, and an empty heap when all handles are gone. Out-of-bounds reads are outside what a shadow heap sees; the Miri tier of C04 covers the shipped code for those.", '5 C03'),
- 'C05': ('fault_enumeration', "For each sampled history every alloc/realloc request the crate issues is failed in turn (and in pairs for small histories) and the history re-executed: Err/panic form, target unchanged (item-prefix for iterator ops), sharers untouched, reference counts and leak audit, remaining history fully checked. Complete over request positions within each sampled history, sampled over histories.", '5 C05'),
+ 'C03': ('exploration', "Shadow heap as oracle at the allocator boundary (double free, free/realloc with a different size or alignment, unknown pointer, damaged guard zone or poison) plus, after every step, block liveness per handle, reference count = live handles per block, no orphan block, and an empty heap when all handles are gone. Out-of-bounds reads are outside what a shadow heap sees: the thorough tier replays generated histories on the unhooked crate under Miri (x86_64 and i686). Both tiers also run directed and seeded random histories over strings longer than 2^24-2 bytes under Miri on i686, where the length lives in the heap block (the 32-bit branch no 64-bit run reaches), including refused copies.", '5 C03, 10.1'),
+ 'C05': ('fault_enumeration', "For each sampled history every alloc/realloc request the crate issues is failed in turn (and in pairs for small histories) and the history re-executed: Err/panic form, target unchanged (item-prefix for iterator ops), sharers untouched, reference counts and leak audit, remaining history fully checked; a refusal swallowed by a non-iterator operation is a violation. Complete over request positions within each sampled history, sampled over histories. Plus a directed Miri/i686 scenario refusing the copy of a shared >16 MiB buffer on the 32-bit-only paths.", '5 C05, 6'),
  'C06': ('exploration', "The size grid (powers of two ±2, the 56-bit boundary, isize::MAX, usize::MAX, each also minus len) is enumerated completely against 10 entry points in 13 prepared storage states under an allocator that refuses giant requests; random histories add arbitrary contexts. Checks Err/clean panic or documented postcondition, unchanged target and sharers, reference counts, capacity never larger than the block granted.", '5 C06'),
  'C07': ('exploration', "Every byte index 0..=len+2 of a catalogue of width-mixed texts in 13 storage states through insert/insert_str/remove/truncate and try_ forms, against String under catch_unwind: panics must coincide; a rejected call leaves text, length, capacity, pointer, storage class, reference count and allocator counters untouched; UTF-8 validity of every handle after every step of every run.", '5 C07'),
  'C08': ('exploration', "Allocator request counter across clone/clone_from/From<&LeanString>/to_lean_string, pointer identity for heap and static sources, inline copy for inline sources, equality; enumerated over lengths to 64 KiB, 13 storage states and up to 60 clones per buffer, plus random clone-heavy histories.", '5 C08'),
- 'C09': ('exploration', "Allocator request counter, is_heap_allocated, inline pointer and capacity for every construction route x every length 0..=40 x final-byte classes, all integer types at digit-count boundaries, and inline edit histories hugging the 16-byte limit. The 8-byte (32-bit) clause is not covered by this engine.", '5 C09'),
+ 'C09': ('exploration', "Allocator request counter, is_heap_allocated, inline pointer and capacity for every construction route x every length 0..=40 x final-byte classes, all integer types at digit-count boundaries, and inline edit histories hugging the 16-byte limit. The 8-byte (32-bit) clause is covered by generated histories interpreted by Miri on i686 (48 quick / 320 thorough; storage-class clauses only, no request counting there).", '5 C09, 10.1'),
  'C10': ('exploration', "Handles born from leaked writable 'static texts: no allocator request and pointer identity (while longer than 16 bytes) after from_static_str, clone, pop, truncate, clear; the arena is compared byte for byte with pristine copies after every step of every run.", '5 C10'),
  'C11': ('exploration', "capacity() >= len() for every handle after every step; postconditions of with_capacity and reserve (capacity, exclusive ownership); no allocator request and no move for appends/inserts within the reported capacity of an exclusively owned string; capacity never exceeds what the granted block can hold.", '5 C11'),
  'C12': ('exploration', "Every growth event in random histories must land in floor(1.5*len) <= capacity <= max(that, need); push-one-char loops up to 64 KiB (4 MiB thorough) from 6 start states count allocator requests (O(log n)) and bytes moved by realloc (O(n)).", '5 C12'),
  'C13': ('exploration', "Enumerated grid of length/capacity ratios x m x sharing situations x shrink_to/shrink_to_fit (plain and try_) plus random histories: text unchanged everywhere, capacity not larger than before (or inline size), not below len, not below min(m, old), exactly max(len, m) (or inline) for over-allocated heap strings, shared or not.", '5 C13'),
  'C17': ('exploration', "After every step all pairs of live handles (same text reached by different histories: inline fresh vs after pop, heap vs static vs inline, shared-truncated vs unique, over-allocated vs exact) and each handle against str/String/Cow in both argument orders: ==, cmp, partial_cmp, hash, Display/Debug, HashMap/BTreeMap lookup by &str.", '5 C17'),
  'C18': ('fault_enumeration', "For random and prepared-state cases the k-th invocation of the retain predicate / iterator next / Display piece panics, for every k: the String model is driven through the same panic, sharers must be untouched, the shadow heap must show no orphan block and must be empty at the end. Complete over panic positions within each sampled case, sampled over cases.", '5 C18'),
- 'C20': ('exploration', "The same seeded histories are executed by six builds of the simulator ({default, no-default-features, all features} x {dev, release}); per-run trace digests must agree and all C01-C03 invariants hold in each; Option<LeanString> niche checked for every live handle after every step; sizes asserted at compile time.", '5 C20'),
+ 'C20': ('exploration', "The same seeded histories are executed by six builds of the simulator ({default, no-default-features, all features} x {dev, release}); per-run trace digests must agree and all C01-C03 invariants hold in each; Option<LeanString> niche checked for every live handle after every step and for every possible final byte of a full inline string; sizes asserted at compile time; i686 (2 words = 8 bytes) histories under Miri.", '5 C20, 10.1'),
 }
 
 def main():
@@ -33,7 +33,7 @@ def main():
             'replay_cmd_template': './check replay {path}',
             'engine': 'histsim',
             'level_claimed': {'category': cat, 'text': text, 'design_ref': 'DESIGN.md §' + ref},
-            'level_note': "Trusted: the harness (String model, shadow heap, generators), rustc/std; operations are atomic in this engine; seeded sampling, so a clean batch is evidence and not proof; x86_64 only.",
+            'level_note': "Trusted: the harness (String model, shadow heap, generators), rustc/std, Miri where used; operations are atomic in this engine; seeded sampling, so a clean batch is evidence and not proof; x86_64 host (32-bit only under Miri's i686 target).",
             'technique': TECH_HIST,
         })
     extra = os.path.join(HERE, 'manifest_c04.json')
